@@ -78,10 +78,20 @@ def expected(ds, thr):
     return Q, w
 
 
-def mk_post(d):
+def interleave(g):
+    """a storage order in which copies of the same haplotype are not adjacent where possible, e.g. (x, y, x)"""
+    g = list(g)
+    if len(g) >= 3 and g[0] == g[1] and g[1] != g[-1]:
+        return [g[0], g[-1]] + g[1:-1]
+    if len(g) >= 3 and g[-1] == g[-2] and g[0] != g[-1]:
+        return [g[-1], g[0]] + g[1:-1]
+    return g[::-1]
+
+
+def mk_post(d, variant=0):
     from mchap.assemble.classes import PosteriorGenotypeDistribution
 
-    gen = np.array([[H[a] for a in g] for g, _ in d], np.int8)
+    gen = np.array([[H[a] for a in (g if variant == 0 else interleave(g))] for g, _ in d], np.int8)
     pr = np.array([p for _, p in d])
     o = np.flip(np.argsort(pr, kind="stable"))
     return PosteriorGenotypeDistribution(gen[o], pr[o])
@@ -106,6 +116,11 @@ def check_fn(r, payload, ds, thr, tagp):
 
     Q, w = expected(ds, thr)
     haps, refc = call_posterior_haplotypes([mk_post(d) for d in ds], threshold=thr)
+    # the posterior objects are multisets of haplotypes: the storage order of the rows of a genotype must not matter
+    haps2, refc2 = call_posterior_haplotypes([mk_post(d, 1) for d in ds], threshold=thr)
+    if sorted(map(tuple, haps2.tolist())) != sorted(map(tuple, haps.tolist())) or refc2 != refc:
+        r.violation("fn-row-order|" + tagp, "called haplotypes depend on the storage order of the haplotypes inside a genotype: %r vs %r (thr=%g, posteriors=%s)" % (
+            haps.tolist(), haps2.tolist(), thr, ds), payload)
     got = [H.index(tuple(int(x) for x in row)) for row in haps]
     tag = "%s|thr=%g|posteriors=%s" % (tagp, thr, ds)
     r.evaluations += 1
